@@ -4,6 +4,7 @@ import PercevalModel.Model.C06Proc
 import PercevalModel.Model.C06Samp
 import PercevalModel.Lemmas.C06PlaceDefs
 import PercevalModel.Model.C06Anon
+import PercevalModel.Model.C06Src
 
 open Lean PM PM.Proto PM.C06
 
@@ -226,6 +227,49 @@ def anonStateOp (j : Json) : Except String Json := do
   return Json.mkObj [("state", stateJ (anonState s)), ("unsorted", stateJ (anonModes [] s)),
     ("map", modeJ (annotMap s))]
 
+/-! ### the `Source` object across calls (`Model/C06Src.lean`) -/
+
+def tableJ (tab : Table) : Json :=
+  Json.arr (tab.map fun e => Json.arr #[toJson e.1.1, toJson e.1.2.1, toJson e.1.2.2, ratToJson e.2]).toArray
+
+def parseSrcOp (j : Json) : Except String SrcOp := do
+  let op ← strOf j "op"
+  match op with
+  | "cache" => return .cacheTable (← natOf j "n") (← natOf j "f")
+  | "samples" => return .samples (← natList (← j.getObjVal? "ns")) (← natOf j "f")
+  | "dist" => return .dist (← natList (← j.getObjVal? "ns"))
+  | "pd" => return .probDist (← natOf j "n")
+  | _ => throw "bad-src-op"
+
+def srcOutJ : SrcOut → List (String × Json)
+  | .cached perf zpp => [("out", "cached"), ("perf", ratToJson perf), ("zpp", ratToJson zpp)]
+  | .zeroDiv => [("out", "ZeroDivisionError")]
+  | .perfect => [("out", "perfect")]
+  | .noFilter => [("out", "no-filter")]
+  | .aborted => [("out", "aborted")]
+  | .noEvent => [("out", "IndexError")]
+  | .events tb => [("out", "events"), ("used", tableJ tb)]
+  | .moved => [("out", "moved")]
+
+def srcStateJ (s : Src) : List (String × Json) :=
+  [("tag", toJson s.tag),
+   ("cache", match s.tab with
+     | none => Json.null
+     | some (tb, n, f) => Json.mkObj [("n", toJson n), ("f", toJson f), ("table", tableJ tb)])]
+
+/-- a history of public calls on ONE new `Source`; per call the outcome and the state of the object after it -/
+def runSrcHist (P : Params) (j : Json) : Except String Json := do
+  let ops ← (← (← j.getObjVal? "ops").getArr?).toList.mapM parseSrcOp
+  let rec go (s : Src) : List SrcOp → List Json
+    | [] => []
+    | o :: os =>
+      let r := srcStep P s o
+      Json.mkObj (srcOutJ r.2 ++ srcStateJ r.1) :: go r.1 os
+  let t0 ← (match j.getObjVal? "t0" with
+    | .ok tj => tj.getNat?
+    | .error _ => pure 0)
+  return Json.mkObj [("steps", Json.arr (go (Src.initT t0) ops).toArray)]
+
 def handleE (j : Json) : Except String Json := do
   let op ← strOf j "op"
   if op = "hist" then return ← runHist j
@@ -289,6 +333,7 @@ def handleE (j : Json) : Except String Json := do
     let ns ← natList (← j.getObjVal? "ns")
     let f ← natOf j "f"
     return Json.mkObj [("route", toJson (routeStr (sampRoute P ns.sum f)))]
+  | "src_hist" => runSrcHist P j
   | "replay_nf" => replayNF P j
   | "replay_f" => replayF P j
   | _ => throw "bad-op"
